@@ -193,6 +193,7 @@ def run(tier, replay_file=None):
                 chk.mismatches.append(f'HandlerError::Handler response not stamped with exactly the request id: {out} (no public-API replay)')
 
     stamping(chk, ex)
+    request_ids(chk, ex)
     status_types(chk, ex)
     kani_status_types(chk)
     witnesses(chk)
@@ -241,6 +242,125 @@ def stamping(chk, ex):
                 g.run(eps, 'unversioned', mode, rfn, check, 'stamping')
     finally:
         ex.models = saved_models
+
+
+def id_sequence_case():
+    """two keep-alive connections, three pipelined requests each: a handler that reports the id it was given, a 404 and a 400 from the framework"""
+    def req(method, target): return {'raw': f'{method} {target} HTTP/1.1\r\nHost: replay\r\nContent-Length: 0\r\n\r\n'}
+    conn = [req('PUT', '/ectx/a?s=1&n=1&b=true&c=Red'), req('GET', '/no/such/path'), req('PUT', '/ectx/b?s=2&n=notanumber&b=true&c=Red'), req('PUT', '/ectx/c?s=3&n=3&b=false&c=Green')]
+    return {'op': 'echo', 'connections': [conn, conn]}
+
+
+def id_sequence_ok(nat):
+    ids, ok = [], True
+    for conn in nat.get('connections', []):
+        if len(conn) != 4: ok = False
+        for r in conn:
+            hdr = r.get('x_request_id') or []
+            ok = ok and len(hdr) == 1 and (r.get('body') or {}).get('request_id') == hdr[0]
+            ids += hdr
+    return ok and len(ids) == 8 and len(set(ids)) == 8
+
+
+def request_ids(chk, ex):
+    """server.rs::ServerRequestHandler (one per connection) + http_request_handle_wrap: every request handled through the same
+    connection handler draws its own request id; that id is the one handed to request handling, stamped on the framework's error
+    response and written into its body.  generate_request_id() is replaced by a generator of distinct ids (the Uuid::new_v4 contract)."""
+    from props import glue as G, asyncmodel as AM
+    f = ex.fns
+    F_new = [n for n in mir.find(f, r'server::<impl at [^>]*>::new$', unique=False) if 'ServerRequestHandler' in (f[n].ret or '')][0]
+    F_call = [n for n in mir.find(f, r'server::<impl at [^>]*>::call$', unique=False) if 'ServerRequestHandler' in f[n].locals.get('_1', '')][0]
+    NREQ = 3
+    class S: drawn = 0; seen = []; outcome = None
+    gen = [sstr(f'generated_id_{k}') for k in range(2 * NREQ + 2)]
+    ext, intl = sstr('external_message'), sstr('internal_message')
+    def m_generate(ex, a, c):
+        k = S.drawn; S.drawn += 1
+        if k >= len(gen): raise Unsupported('more request ids drawn than expected')
+        return gen[k]
+    def m_handle(ex, a, c):
+        # http_request_handle(server, request, &request_id, log, remote_addr) is checked on its own (stamping / C09 / C01): here it reports
+        # the id it was called with and answers as told
+        rid = dv(a[2]); S.seen.append(rid)
+        if S.outcome == 'error':
+            err = ex.mk_struct('HttpError', status_code=Adt('ErrorStatusCode', 0, {None: [Cell(z3.BitVecVal(404, 16))]}), error_code=ex.none(),
+                               external_message=ext, internal_message=intl, headers=ex.none())
+            return Opaque('readyfut', ex.err(ex.mk_enum('HandlerError', 'Dropshot', [err])))
+        return Opaque('readyfut', ex.ok(Response(200, HMap([('x-request-id', HV(rid))]), Opaque('body', 'handler-output'))))
+    local = [(r'^(server::)?generate_request_id$', m_generate, True), (r'^(server::)?http_request_handle::<', m_handle, True),
+             (r'^Method::as_str$', lambda ex, a, c: 'GET'),
+             (r'Instant::now$', lambda ex, a, c: Opaque('instant')), (r'Instant::elapsed$', lambda ex, a, c: Opaque('duration')), (r'Duration::as_micros$', lambda ex, a, c: Opaque('micros')),
+             (r'^scopeguard::guard::|^guard::<', lambda ex, a, c: Opaque('scopeguard', a)), (r'ScopeGuard::<.*>::into_inner$', lambda ex, a, c: Tup([]))]
+    assume = [z3.Distinct(*[g.term for g in gen], ext.term, intl.term)] + [hv_ok(g.term) for g in gen]
+    saved = ex.models
+    ex.models = local + G.MODELS + AM.MODELS + ex.models
+    try:
+        for outcome in ('error', 'success'):
+            def h(ex):
+                S.drawn, S.seen, S.outcome = 0, [], outcome
+                server = ex.mk_struct_partial('DropshotState', config=ex.mk_struct_partial('ServerConfig', log_headers=PVec()), log=Opaque('log'))
+                hd = ex.call_fn(F_new, [Ref(Cell(server)), Opaque('remote')])
+                outs = []
+                for i in range(NREQ):
+                    req = httpmodel.Request(headers=HMap([]), method=Opaque('m'), uri=Opaque('uri'), body=Opaque('incoming'), version=Opaque('HTTP/1.1'))
+                    fut = ex.call_fn(F_call, [Ref(Cell(hd)), req])
+                    cell = AM.pinned(fut)
+                    if isinstance(cell.v, Ref): cell = cell.v.cell
+                    outs.append(AM.drive(ex, cell))
+                return outs, list(S.seen)
+            outs = ex.explore(h, assume)
+            chk.paths += len(outs)
+            n_ok = 0
+            def rep(m, what):
+                if m is None: return
+                case = id_sequence_case()
+                nat = replay([case])[0]
+                chk.counterexample(f'{what} -> on a real server (two connections, four pipelined requests each): '
+                                   f'{[[(r.get("status"), r.get("x_request_id"), (r.get("body") or {}).get("request_id")) for r in c] for c in nat.get("connections", [])]}',
+                                   case, not id_sequence_ok(nat), role='request-id:' + outcome)
+            for pc, (k, r) in outs:
+                if k != 'ok':
+                    m = chk.prove(f'request-id/{outcome}/no-panic', pc, z3.BoolVal(True), extra=assume); rep(m, f'request handling panicked: {r}'); continue
+                n_ok += 1
+                resps, seen = r
+                good = len(seen) == NREQ and all(isinstance(s_, SymStr) for s_ in seen)
+                m = chk.prove(f'request-id/{outcome}/every-request-is-handled-under-an-id', pc, z3.BoolVal(not good), extra=assume)
+                rep(m, f'requests were handled under {seen}')
+                if not good: continue
+                pairs = [(i, j) for i in range(NREQ) for j in range(i + 1, NREQ)]
+                m = chk.prove(f'request-id/{outcome}/ids-of-requests-on-one-connection-are-distinct', pc, z3.Or([seen[i].term == seen[j].term for i, j in pairs]), extra=assume)
+                rep(m, f'two requests on one connection were handled under the same request id: {seen}')
+                for i, (resp, rid_) in enumerate(zip(resps, seen)):
+                    okr = resp.discr == 0 and isinstance(ex.payload(resp), Response)
+                    if okr:
+                        rr = ex.payload(resp)
+                        ids = [v.content for n, v in rr.headers.entries if n == 'x-request-id']
+                        okr = len(ids) == 1 and isinstance(ids[0], SymStr) and ids[0].term.eq(rid_.term)
+                        if outcome == 'error':
+                            body = body_json(ex, rr)
+                            okr = okr and rr.status == 404 and body is not None and isinstance(dv(ex.field(body, 'request_id').v), SymStr) and dv(ex.field(body, 'request_id').v).term.eq(rid_.term) \
+                                and not occurs(rr, intl.term)
+                        else:
+                            okr = okr and rr.status == 200
+                    m = chk.prove(f'request-id/{outcome}/response-{i}-carries-its-own-id', pc, z3.BoolVal(not okr), extra=assume)
+                    rep(m, f'response #{i} of the connection is {resp}; the request was handled under {rid_}')
+            if not n_ok: raise Inconclusive(f'vacuity: request-id sequence ({outcome}) has no path; {ex.unsupported_paths[-2:]}')
+    finally:
+        ex.models = saved
+    # the same on the wire
+    case = id_sequence_case()
+    nat = replay([case])[0]
+    chk.replayed += 1
+    if not id_sequence_ok(nat):
+        chk.counterexample(f'request ids over two keep-alive connections: {[[(r.get("status"), r.get("x_request_id"), (r.get("body") or {}).get("request_id")) for r in c] for c in nat.get("connections", [])]}',
+                           case, True, role='request-id:wire')
+
+
+def body_json(ex, resp):
+    """the HttpErrorResponseBody rendered into the response body, or None"""
+    body = resp.body.payload if isinstance(resp.body, Opaque) and resp.body.tag == 'body' else None
+    if isinstance(body, JsonText) and isinstance(body.value, Adt) and body.value.ty == 'HttpErrorResponseBody': return body.value
+    return None
 
 
 def _eq(ex, a, b):
